@@ -130,14 +130,15 @@ def run(ctx, rep):
     # way, `?`, and_then / map / map_err / ok_or closures, match / let-else and private helpers (tail-called, under
     # `?`, handed to a combinator) all expanded into the same primitive decisions in from_str's own terms
     try:
-        rp, giveup = H.result_paths(prog, sl, fs), ''
+        # (the text before / after the first ':' in its one normal form, whether split_once or find + slicing wrote it)
+        rp, giveup = H.norm_split_paths(H.result_paths(prog, sl, fs)), ''
     except H.Giveup as e:
         rp, giveup = [], '; outcomes of from_str not understood: %s' % e
     oks = [(atoms, p) for atoms, k, p in rp if k == 'ok']
     good = len(oks) >= 1
     vals = []
     for atoms, p in oks:
-        ck = strip(sl.inline_deep(p))
+        ck = H.norm_split(strip(sl.inline_deep(p)))
         fl = dict(ck[3]) if ck[0] == 'agg' else {}
         name_v, val_v = fl.get('name', ('unknown',)), fl.get('value', ('unknown',))
         vals.append(val_v)
@@ -165,7 +166,7 @@ def run(ctx, rep):
     rep.check(not pp and not giveup, 'R3', 'parts', w(fs), 'name = text before the first colon, value = hex::decode(text after it); the tests look at these',
               'accepted checksum is not made of the split parts: %s%s' % ('; '.join(pp[:3]), giveup))
     # "exactly when": acceptance depends on the four conditions and on nothing else
-    ex = H.acceptor_extra_conditions(fs, oks) if oks else ['no Ok outcome']
+    ex = H.acceptor_extra_conditions(fs, oks, sl) if oks else ['no Ok outcome']
     rep.check(not ex and not giveup, 'R3', 'exact', w(fs), 'accepting paths depend only on split_once / hex::decode / name_compatible / length_compatible',
               'acceptance also depends on: %s%s' % ('; '.join(ex[:3]), giveup))
     # ---- R4 ------------------------------------------------------------------------------------------
